@@ -164,6 +164,9 @@ func handoverRun(r *vf.Run, a *app.App, me *refctl.Identity, acc app.StoredEntit
 		}
 		atomic.StoreInt32(&schedule, int32(mode))
 		for i := 0; i < n; i++ {
+			if r.ViolationCount() >= 3 {
+				break // what is wrong has been shown; every further unanswered request costs fifty probe round trips
+			}
 			r.Eval()
 			r.Count("handovers_"+scheduleNames[mode], 1)
 			oneHandover(r, a, me, acc, mode)
